@@ -5,7 +5,7 @@ import fcntl, hashlib, json, os, re, shutil, subprocess, sys, time, importlib
 VERIF = os.path.dirname(os.path.dirname(os.path.abspath(__file__)))
 REPO = os.environ.get("VERIF_REPO", "/repo")
 LEAN = os.path.join(VERIF, "lean")
-BUILD = os.path.join(VERIF, "build")
+BUILD = os.environ.get("VERIF_BUILD", os.path.join(VERIF, "build"))
 EVID = os.path.join(VERIF, "evidence")
 REPLAY = os.path.join(BUILD, "replay")
 sys.path.insert(0, os.path.join(VERIF, "extract"))
@@ -23,8 +23,10 @@ def log(*a):
 
 class Lock:
     def __init__(self, name):
-        os.makedirs(BUILD, exist_ok=True)
-        self.path = os.path.join(BUILD, name + ".lock")
+        # the lake lock is global (one shared lean/.lake); build locks are per build directory
+        base = os.path.join(VERIF, ".locks") if name == "lake" else BUILD
+        os.makedirs(base, exist_ok=True)
+        self.path = os.path.join(base, name + ".lock")
 
     def __enter__(self):
         self.f = open(self.path, "w")
